@@ -339,11 +339,11 @@ POSTCONDITION Post
 """
 
 
-def tlc_enum(ctx: Ctx, tree: Tree, maxroots: int, guess: str, listing: str = "sorted", count: bool = True):
+def tlc_enum(ctx: Ctx, tree: Tree, maxroots: int, guess: str, listing: str = "sorted", count: bool = True, coverage: bool = False):
     f = ctx.scratch / f"universe_{tree.src.name}.json"
     f.write_text(json.dumps(tree.universe()))
     r = ctx.tlc("Determinism", CFG.format(maxroots=maxroots, source="enum", guess=guess, listing=listing), workers=1,
-                env={"C18_UNIVERSE": str(f)}, check=True, timeout=1500, count=count)
+                env={"C18_UNIVERSE": str(f)}, check=True, timeout=1500, count=count, coverage=coverage)
     post = [x for x in r.printed if "dependent" in x]
     recs = [x for x in r.printed if "pid" in x]
     if len(post) != 1 or not recs:
@@ -456,12 +456,16 @@ def realise_enumeration(ctx: Ctx, runner: Runner, tree: Tree, uname: str, recs: 
             shutil.copytree(ref["out"], out, symlinks=True)
         o = runner.run(tree.src, env["root_args"], rec["named"], env["seed"], env["orders"], env["salt"], out)
         try:
-            if o["rc"] != 0:
-                raise MachineryError(f"pydoctor run failed rc={o['rc']}: {o['tail']}")
             name_ref = ref["obs"]["guess"] or PROJECT_NAME
             name_out = o["guess"] or PROJECT_NAME
-            diff = compare_with_ref(ref["out"], ref["digest"], out, name_ref, name_out)
-            drift = conformance(rec, out, o)
+            if o["rc"] != 0 or not out.exists():
+                # the reference environment produced a tree, this environment did not: the output depends on it
+                diff = {"differing_files": [], "n_differing": -1, "same_file_set": False, "observed_projname": [name_ref, name_out],
+                        "residual_after_projname_normalisation": ["<run failed>"], "failure": {"rc": o["rc"], "tail": o["tail"]}}
+                drift = None
+            else:
+                diff = compare_with_ref(ref["out"], ref["digest"], out, name_ref, name_out)
+                drift = conformance(rec, out, o)
         finally:
             shutil.rmtree(out, ignore_errors=True)
         return {"rec": rec, "env": env, "diff": diff, "drift": drift, "guess": o["guess"]}
@@ -540,7 +544,7 @@ def observed_runs(ctx: Ctx, runner: Runner, pool: ThreadPoolExecutor, rng: rando
         else:
             outdir = "fresh"
         o = runner.run(src, list(pr["roots"]), pr["named"], seed, {}, salt, out)
-        if o["rc"] not in (0, 3) or not out.exists():       # 3 = warnings with -W; testpackages only warn
+        if o["rc"] not in (0, 2, 3) or not out.exists():    # 2 = docstring syntax errors were reported (pages are written)
             raise MachineryError(f"pydoctor failed on test packages {pr['roots']}: rc={o['rc']} {o['tail']}")
         setorder = set_order_probe(seed, [list(pr["roots"])])[0]
         return {"pi": pi, "e": e, "pr": pr, "seed": seed, "salt": salt, "outdir": outdir, "out": out, "obs": o,
@@ -573,7 +577,10 @@ def run(ctx: Ctx) -> int:
             src = ctx.scratch / f"src_{uname}"
             materialise(src, UNIVERSES[uname])
             tree = Tree(src, sorted({f.split("/")[0] for f in UNIVERSES[uname]}))
-            recs, dep_model, r = tlc_enum(ctx, tree, maxroots, "set")
+            recs, dep_model, r = tlc_enum(ctx, tree, maxroots, "set", coverage=ctx.quick)
+            if r.coverage:
+                ctx.extra["action_coverage"] = r.coverage
+                ctx.extra["actions_never_taken"] = [a for a, c in r.coverage.items() if c == 0 and a[0].isupper() and a != "Init"]
             res = realise_enumeration(ctx, runner, tree, uname, recs, pool, nseeds)
             # which of the two transcriptions of the name guess does the code follow?  (set iteration = unchanged
             # tree; command line order = the proposed fix).  Both live in the spec; use the one the code conforms to.
